@@ -135,6 +135,28 @@ def lopsided_case(rng):
     return {"dense": dense, "commons": commons, "shape": None, "extents": extents}
 
 
+def heavy_line_case(rng, i=0):
+    """Proportions: 120 000 to 400 000 rows of which a line of the cube holds all but one, two or three rows in its
+    explicit cells - the common cell of that line (never visited, reconstructed by subtracting two six-digit totals)
+    is tiny next to what it is computed from."""
+    n = [400000, 120000, 200001][i % 3]
+    ext0, ext1 = int(rng.integers(2, 5)), int(rng.integers(2, 4))
+    common0 = int(rng.integers(0, ext0 + 1))
+    others = [v for v in range(ext0 + 1) if v != common0]
+    a = numpy.asarray(others, dtype=numpy.int64)[rng.integers(0, len(others), size=n)]
+    b = numpy.zeros(n, dtype=numpy.int64)
+    light = rng.choice(n, size=int(rng.integers(0, 300)), replace=False)
+    b[light] = rng.integers(1, ext1 + 1, size=len(light))
+    heavy_rows = numpy.flatnonzero(b == 0)
+    a[rng.choice(heavy_rows, size=1 if i % 2 == 0 else int(rng.integers(1, 4)), replace=False)] = common0     # the 1-3 rows of the common cell
+    if rng.random() < 0.5 and i % 2:
+        a[rng.choice(n, size=2, replace=False)] = common0
+    dense = [a, b] if rng.random() < 0.5 else [b, a]
+    commons = [common0, int(rng.integers(1, ext1 + 1))] if dense[0] is a else [int(rng.integers(1, ext1 + 1)), common0]
+    extents = [ext0, ext1] if dense[0] is a else [ext1, ext0]
+    return {"dense": dense, "commons": commons, "shape": None, "extents": extents, "huge": True}
+
+
 def cases(ctx):
     rng = ctx.rng
     if ctx.shard.get("sparse"):
@@ -144,6 +166,12 @@ def cases(ctx):
     if ctx.shard.get("huge"):
         for i in range(ctx.shard["n"]):
             c = huge_case(rng)
+            c["rma"] = [NaN, (0, False)][i % 2]
+            c["edit_seed"] = None
+            yield c
+        for i in range(max(4, ctx.shard["n"])):
+            c = heavy_line_case(rng, i)
+            ctx.count("class:common_cell_of_1-3_rows_on_a_line_of_>=10^5_rows")
             c["rma"] = [NaN, (0, False)][i % 2]
             c["edit_seed"] = None
             yield c
